@@ -51,7 +51,8 @@ template <class F> void for_seeds(vh::Ctx& ctx, const char* fmt, F f)
     for (Seed const& s : io_seeds())
     {
         if (std::string(s.format) != fmt) continue;
-        if (only_small && !((s.w <= 5 && s.h <= 3) || s.w >= 17)) continue;      // the smallest member of every variant + the wide-row seeds
+        // the smallest member of every variant + the wide-row seeds + the PNM seeds with header comments (truncations inside a comment)
+        if (only_small && !((s.w <= 5 && s.h <= 3) || s.w >= 17 || std::strstr(s.name, "_cmt"))) continue;
         if (!ctx.take()) continue;
         f(s);
         if (ctx.timed_out()) return;
